@@ -6,6 +6,10 @@ from rules.C05 import load
 J = 'cppcms::json'
 
 
+def model_strip(x):
+    return x.replace('std::__1::', 'std::')
+
+
 def run(ctx):
     ctx.explanation = ('Structural rules over src/json.cpp and cppcms/json.h: the target of a parse is written only on the success path past the trailing-input test; nesting is bounded by the '
                        'loop guard; strings are accepted only after UTF-8 validation; duplicate keys lead to the error state; number output is bracketed by the C locale on every entry point; '
@@ -205,6 +209,21 @@ def run(ctx):
             ok = ok and bool(thr)
         ctx.check(ok, R7, 'traits<%s>::get:checked' % f.ret, 'a number that does not fit is returned silently truncated', f.where)
 
+
+    # narrowing floating conversions: both bounds of the range test are the limits of the type converted to (double is what a JSON number is stored as)
+    nar = [(f, 'float') for f in gets if f.ret == 'float'] + \
+          [(f, 'double') for f in P.fns.values() if f.brecord == J + '::traits' and f.short == 'set' and f.file.endswith('cppcms/json.h') and len(f.params) == 2 and 'long double' in (f.types[f.params[1]['t']] or '')]
+    ctx.require(len(nar) == 2 or ctx.violations, 'C11.R7: traits<float>::get / traits<long double>::set not found (%d)' % len(nar))
+    for f, tgt in nar:
+        lim = [model_strip(f.callee(i) or '') for i in f.calls() if q.short_of(f.callee(i) or '') in ('max', 'lowest', 'min') and 'numeric_limits' in (f.callee(i) or '')]
+        g = f.gate_edges(lambda atom, pol, f=f: f.N(atom)['k'] == 'BinaryOperator' and f.N(atom).get('op') in ('<', '>') and pol is False and
+                         any('numeric_limits' in (f.callee(j) or '') for j in q.expr_calls_deep(f, atom)))
+        sinks = [r_ for r_ in f.returns() if f.ret_value(r_) is not None] + [i for i in f.calls() if q.short_of(f.callee(i) or '') == 'number' and f.args(i)]
+        neg = [i for i in f.all_nodes() if f.N(i)['k'] == 'UnaryOperator' and f.N(i).get('op') == '-' and any('numeric_limits' in (f.callee(j) or '') for j in f.calls(i))]
+        ok = len(lim) >= 2 and all(x == 'std::numeric_limits<%s>::max' % tgt or x == 'std::numeric_limits<%s>::lowest' % tgt for x in lim) and len(g) >= 2 and bool(sinks) and \
+            all(f.only_through(s_, g) for s_ in sinks) and (len(neg) == 1 or any(x.endswith('lowest') for x in lim))
+        ctx.check(ok, R7, 'traits<%s>::%s:both-bounds-are-the-limits-of-%s' % ('float' if tgt == 'float' else 'long double', f.short, tgt),
+                  'the range test uses %s: a value outside the range of %s is converted silently (to an infinity the writer cannot represent)' % (lim, tgt), f.where)
 
     # ---------------- R5 writer escape table (E3)
     from vlib import absint
